@@ -11,8 +11,9 @@ EXPLANATION = (
     "configured number), Open -> HalfOpen only under last_failure.elapsed() >= reset_timeout, HalfOpen -> Closed on "
     "success and -> Open on failure; and the admission table of allow_request: an arm that admits while HalfOpen must "
     "change state or set a flag, otherwise every concurrent sender is admitted instead of exactly one probe."
+    " Every transition into Open stamps last_failure_time on the same path (the reset timeout is measured from it)."
 )
-DECIDED = ["every send ends in delivery or a DLQ write", "transition table and guards of the breaker", "whether half-open admits a single probe"]
+DECIDED = ["every send ends in delivery or a DLQ write", "transition table and guards of the breaker", "whether half-open admits a single probe", "re-opening after a failed probe restarts the reset timeout"]
 NOT_DECIDED = ["DLQ file I/O errors (best effort by design)", "timing of concurrent senders"]
 
 R = "varpulis_runtime::"
